@@ -66,6 +66,7 @@ type Exec struct {
 	StepCap   bool     // per-execution step cap hit (livelock or runaway)
 	Diverged  string   // replay divergence: a prefix choice was out of range
 	Steps     int
+	Points    int // access-instrumentation points passed
 	Threads   int
 	EndTime   int64
 }
@@ -583,4 +584,22 @@ func (x *Exec) Describe() string {
 		fmt.Fprintf(&b, " PANIC(%s in %s)", x.PanicVal, x.PanicFn)
 	}
 	return b.String()
+}
+
+// Point is a scheduling point inserted by access instrumentation (C18). Outside an execution
+// (package initialisation, sequential reference runs) it does nothing.
+func Point(kind string, site int) {
+	s := S
+	if s == nil {
+		return
+	}
+	s.x.Points++
+	Op(kind, site, nil)
+}
+
+// After is wrapped around a call whose receiver or arguments mention shared state: the point is
+// passed after the call has returned and before its result is used.
+func After[T any](site int, v T) T {
+	Point("after-call", site)
+	return v
 }
